@@ -57,22 +57,28 @@ func c01(cx *Ctx, r *ev.Report) {
 			r.Violate("C01/catalogue/documented="+a.Enc, "CATALOGUE: every documented encoding has an arm", a.Pos, "documented instruction "+a.Info.Name+" is decoded as unsupported")
 		}
 	}
-	// Step without a request is exactly one run of the decoder from the
-	// unmodified state - the link between the arms and the public entry point
-	if sa := cx.stepAnalysis(); sa.err != nil {
-		r.Undecide("C01/step", "STEP-EQ(row no-request)", cx.P.Pos(cx.E.Step.Pos()), sa.err.Error())
-	} else {
-		for _, row := range sa.rows {
-			if row.name != "no-request" {
-				continue
-			}
-			ds := diffStrings(cx.E.CompareUnder(sa.impl, sa.ref, row.pred), nil)
-			r.Check(len(ds) == 0, "C01/step/row="+row.name, "STEP-EQ(row no-request): with no request pending, (*CPU).Step runs the decoder exactly once from the unmodified state and does nothing else (so the effect of a Step is the effect of the arm, for every state incl. HALT set)", cx.P.Pos(cx.E.Step.Pos()), "summary-equality", ds...)
-		}
-	}
+	stepGlue(cx, r, "C01")
 	r.Hold("C01/catalogue/decoder-shape", "CATALOGUE: the decoder is a constant decode over opcode fetches resolved by constant propagation", cx.P.Pos(cx.E.Exec.Pos()), "shape")
 	summaryReport(cx, r, nil)
 	r.Explanation = "All 1786 opcode-byte prefixes (main, CB, ED, DD, FD, DDCB, FDCB) are specialised; each implemented arm's closed-form summary is compared with the reference model's for every CPU field (A,F,BC,DE,HL, alternates, IX,IY,SP,PC,I,R,IFF1,IFF2,IM,HALT and the non-architectural fields, which must stay unchanged) and for the multiset of memory/port writes. Address arithmetic is compared modulo 2^16 as bit-vector functions, so wrap-around needs no separate case. Unimplemented undocumented encodings must equal 'bytes consumed, warning logged'."
+}
+
+// stepGlue: Step without a request is exactly one run of the decoder from the
+// unmodified state - the link between the arm summaries and the public entry
+// point every per-instruction property speaks about.
+func stepGlue(cx *Ctx, r *ev.Report, prop string) {
+	sa := cx.stepAnalysis()
+	if sa.err != nil {
+		r.Undecide(prop+"/step", "STEP-EQ(row no-request)", cx.P.Pos(cx.E.Step.Pos()), sa.err.Error())
+		return
+	}
+	for _, row := range sa.rows {
+		if row.name != "no-request" {
+			continue
+		}
+		ds := diffStrings(cx.E.CompareUnder(sa.impl, sa.ref, row.pred), nil)
+		r.Check(len(ds) == 0, prop+"/step/row="+row.name, "STEP-EQ(row no-request): with no request pending, (*CPU).Step runs the decoder exactly once from the unmodified state and does nothing else (so the effect of a Step is the effect of the arm, for every state incl. HALT set)", cx.P.Pos(cx.E.Step.Pos()), "summary-equality", ds...)
+	}
 }
 
 var c02Classes = classSet("alu8", "rotA", "rot", "bit")
@@ -83,6 +89,7 @@ func c02(cx *Ctx, r *ev.Report) {
 	r.Analysed["arms_selected"] = n
 	r.AddFloor("alu_rotate_bit_arms", n, 559)
 	c02Uniform(cx, r)
+	stepGlue(cx, r, "C02")
 	summaryReport(cx, r, c02Classes)
 	r.Explanation = "A, F (all eight bits, minus the bits the property names as unspecified: 5/3 after SCF/CCF and BIT on a memory operand) and the written operand of every 8-bit ALU, rotate/shift and bit arm equal the reference as boolean functions of A, the operand and the incoming F: the cube A x operand x F is covered symbolically, not sampled. Sibling congruence (C02/uniform) additionally shows every operand encoding of one operation computes the same function."
 }
@@ -94,6 +101,7 @@ func c03(cx *Ctx, r *ev.Report) {
 		diffKeep: func(a *engine.ArmResult, d engine.Diff) bool { return isStateLike(d) || isWriteEvent(d) }})
 	r.Analysed["arms_selected"] = n
 	r.AddFloor("arith16_arms", n, 32)
+	stepGlue(cx, r, "C03")
 	summaryReport(cx, r, c03Classes)
 	r.Explanation = "ADD HL/IX/IY,ss, ADC/SBC HL,ss and INC/DEC ss arms: result and F equal the reference (17-bit sum, H = carry out of bit 11, C = carry out of bit 15, V from operand/result signs, Z of the full 16-bit result) as functions of both 16-bit operands and the incoming carry; doubling forms use one operand atom twice in the reference, so a form adding a different register differs."
 }
@@ -106,6 +114,7 @@ func c04(cx *Ctx, r *ev.Report) {
 	r.Analysed["arms_selected"] = n
 	r.AddFloor("control_arms", n, 58)
 	c04Compose(cx, r)
+	stepGlue(cx, r, "C04")
 	summaryReport(cx, r, c04Classes)
 	r.Explanation = "For JP/JR/CALL/RET (conditional and not), DJNZ, RST, JP (HL)/(IX)/(IY), PUSH/POP and RETI/RETN the guard of the 'taken' effects is compared as a boolean function of F (resp. B-1) with the reference's condition table, the untaken path must only advance PC, pushes/pops are compared as (address,value) events relative to SP modulo 2^16, and F must be unchanged (POP AF excepted). PUSH;POP and CALL;RET identities are discharged on the composed reference."
 }
@@ -156,6 +165,7 @@ func c09(cx *Ctx, r *ev.Report) {
 	r.Analysed["arms_selected"] = n
 	r.AddFloor("block_arms", n, 16)
 	noLoopsBelowStep(cx, r, "C09")
+	stepGlue(cx, r, "C09")
 	summaryReport(cx, r, c09Classes)
 	r.Level = "other"
 	r.Explanation = "Decided: each of the 16 block arms performs exactly one element (transfer events, pointer/counter updates, documented flags) and leaves PC on the instruction exactly under the reference's repeat predicate (BC-1 != 0, and A != (HL) for CPIR/CPDR, B-1 != 0 for the I/O forms), for all states; non-repeating forms equal the repeating ones up to PC; no loop exists below Step, so a Step is one element. NOT decided by the machine: the whole-operation statement (BC bytes copied, overlap, first match), which follows by the induction on the counter written in DESIGN.md appendix A.1."
